@@ -1293,6 +1293,11 @@ class Interp:
             v = self.eval(node, fr, TRUE)
         finally:
             self.events = saved_events
+        if v.op == "fstr" and all(
+                tm.is_const(x) and isinstance(tm.const_val(x), (str, int))
+                and not isinstance(tm.const_val(x), bool) for x in v.args):
+            # FMT = "%.{}e".format(DECIMALS): a text assembled from constants
+            v = const("".join(str(tm.const_val(x)) for x in v.args))
         # only keep literal-like values; anything computed stays a named global
         if v.op == "const" and isinstance(tm.const_val(v), (
                 str, bytes, int, float)) and \
@@ -2081,6 +2086,19 @@ class Interp:
                         *[tm.const_val(a) for a in au]))
                 except (TypeError, ValueError):
                     pass
+        if fn.op == "attr" and name == ".format" and not kwargs:
+            # "%.{}e".format(18): a format string assembled from constants
+            ru = self.unname(fn.args[0])
+            au = [self.unname(a) for a in args]
+            if tm.is_const(ru) and isinstance(tm.const_val(ru), str) and \
+                    all(tm.is_const(a) and isinstance(
+                        tm.const_val(a), (str, int)) and not isinstance(
+                            tm.const_val(a), bool) for a in au):
+                try:
+                    return const(tm.const_val(ru).format(
+                        *[tm.const_val(a) for a in au]))
+                except (IndexError, KeyError, ValueError):
+                    pass
         if name == "builtins.super":
             c = frame.func.cls if frame.func is not None else None
             if args and args[0].op == "cls":
@@ -2285,6 +2303,29 @@ class Interp:
         if self.unname(obj).op == "enum":
             # a member of an enumeration is an instance of it
             c = self.prog.classes.get(self.unname(obj).args[0])
+        ou = self.unname(obj)
+        if c is None and tm.is_const(ou):
+            # a constant: decided with the builtin / abstract types by name
+            import collections.abc as _abc
+            table = {"builtins.str": str, "builtins.int": int,
+                     "builtins.float": float, "builtins.bool": bool,
+                     "builtins.bytes": bytes, "builtins.list": list,
+                     "builtins.tuple": tuple, "builtins.dict": dict,
+                     "builtins.set": set, "typing.Iterable": _abc.Iterable,
+                     "collections.abc.Iterable": _abc.Iterable,
+                     "typing.Sequence": _abc.Sequence,
+                     "collections.abc.Sequence": _abc.Sequence,
+                     "typing.Mapping": _abc.Mapping,
+                     "numbers.Number": __import__("numbers").Number}
+            tys = types.args if types.op == "tuple" else (types,)
+            pyt = []
+            for t in tys:
+                tu = self.unname(t)
+                n_ = tu.args[0] if tu.op in ("global", "cls") else None
+                if n_ not in table:
+                    return None
+                pyt.append(table[n_])
+            return isinstance(tm.const_val(ou), tuple(pyt))
         if c is None:
             return None
         tys = types.args if types.op == "tuple" else (types,)
